@@ -22,12 +22,14 @@ def dest_dir(readme, demo_src):
                     good.append(c); break
     good=sorted(set(good), key=lambda c: -readme.count(c))
     return good[0] if good else None
-only=sys.argv[1:] 
+only=sys.argv[1:]
+ROOT=os.environ.get('SEED_ROOT','/tmp/seed')
+VARIANTS=os.environ.get('SEED_VARIANTS','a,b').split(',')
 subprocess.run('git -C /repo worktree remove --force %s 2>/dev/null; git -C /repo worktree add -q --detach %s HEAD'%(WT,WT), shell=True)
 results={}
-for out in sorted(glob.glob('/tmp/seed/C*.out')):
+for out in sorted(glob.glob(ROOT+'/C*.out')):
     prop=os.path.basename(out)[:3]
-    for x in ('a','b'):
+    for x in VARIANTS:
         sid='%s%s'%(prop,x)
         if only and sid not in only: continue
         d=os.path.join(out,x)
@@ -73,5 +75,5 @@ for out in sorted(glob.glob('/tmp/seed/C*.out')):
                               'go test -run %s %s with the change: FAIL'%(runre,target),'same without the change: ok'],
                   'needs_to_manifest':'see README.md (written by the seeding agent)','detected_by':'see DESIGN.md table of seeded changes'}
             json.dump(meta, open(sd+'/meta.json','w'), indent=1)
-json.dump(results, open('/tmp/seed/confirm_results.json','w'), indent=1)
+json.dump(results, open(ROOT+'/confirm_results.json','w'), indent=1)
 subprocess.run('git -C /repo worktree remove --force %s'%WT, shell=True)
